@@ -6,7 +6,7 @@ enum { GT_UNIQUE = 0, GT_SHARED = 1, GT_QS = 2 };
 enum { GO_CTOR_LOCK = 0, GO_CTOR_DEFER, GO_CTOR_ADOPT, GO_CTOR_DEFAULT, GO_LOCK, GO_UNLOCK, GO_MOVE_CTOR, GO_MOVE_ASSIGN, GO_SWAP, GO_DESTROY, GO_IS_LOCKED, GO_PROTECTS, GO_GUARD_LOCK, GO_GUARD_DEFER, GO_COPY_CTOR, GO_COPY_ASSIGN, GO_N };
 extern "C" {
 size_t sut_lock_size(int type);
-void sut_lock_construct(int type, void *mem);
+void sut_lock_construct(int type, void *mem, int default_init);
 void sut_lock(int type, void *l);
 void sut_unlock(int type, void *l);
 int sut_is_locked(int type, void *l);
